@@ -67,7 +67,7 @@ func VerifHarness_C12_Native() {
 		for rep := 0; rep < 5; rep++ {
 			var cs constraint.ConstraintSystem
 			if deletion {
-				cs, _ = BuildR1CSDeletion(1, 8)
+				cs, _ = BuildR1CSDeletion(1, 24) // 24 indices: the hashed string spans two rate blocks
 			} else {
 				cs, _ = BuildR1CSInsertion(1, 8)
 			}
